@@ -334,6 +334,51 @@ func VerifH08g() {
 }
 
 // ---------------------------------------------------------------------------
+// H08h — a Bind at the 16-bit boundaries of its counts (C08): COUNT parameters
+// (32767, 32768 or 65535 — the solver's choice), all NULL but the last, which
+// carries one symbolic byte, with as many per-parameter format codes (text,
+// the last one binary) and as many result-format codes as the statement has
+// columns. The statement function receives exactly COUNT parameters, the last
+// one with its byte and tagged binary, the first one NULL and tagged text.
+// ---------------------------------------------------------------------------
+func VerifH08h() {
+	count := []int{32767, 32768, 65535}[vChoose(3)]
+	last := nondetBytes(1)
+	body := vCat(vCStr(nil), vCStr(nil), vU16(count))
+	codes := make([]byte, 2*count)
+	codes[2*count-1] = 1
+	body = append(body, codes...)
+	body = append(body, vU16(count)...)
+	nulls := make([]byte, 4*(count-1))
+	for i := range nulls {
+		nulls[i] = 0xff
+	}
+	body = append(body, nulls...)
+	body = append(body, vU32(1)...)
+	body = append(body, last...)
+	body = append(body, vU16(0)...)
+	var seen []Parameter
+	fn := func(ctx context.Context, dw DataWriter, params []Parameter) error {
+		seen = params
+		return dw.Complete("T")
+	}
+	w := vNewWorld(nil, 1<<20)
+	vAssert("set-ok", w.ses.Statements.Set(w.ctx, "", NewStatement(fn)) == nil)
+	vAssert("bind-ok", w.ses.handleBind(w.ctx, &buffer.Reader{Msg: body, MaxMessageSize: 1 << 20}, w.wr) == nil)
+	vAssert("bind-complete", vTypes(w.conn.out) == "2")
+	exec := vCat(vCStr(nil), vU32(0))
+	vAssert("execute-ok", w.ses.handleExecute(w.ctx, &buffer.Reader{Msg: exec, MaxMessageSize: 64}, w.wr) == nil)
+	vAssert("every-parameter-reaches-the-statement", len(seen) == count)
+	if len(seen) == count {
+		vAssert("first-parameter-null-and-text", seen[0].Value() == nil && seen[0].Format() == TextFormat)
+		vAssert("last-parameter-byte-and-binary", vEqBytes(seen[count-1].Value(), last) && seen[count-1].Format() == BinaryFormat)
+	}
+	if count >= 32768 {
+		vReach("more-parameters-than-a-signed-16-bit-count")
+	}
+}
+
+// ---------------------------------------------------------------------------
 // H08f — a handler that writes Go strings into int4 columns (C08, C09). pgx
 // sends a string as it is in text format and cannot encode it in binary
 // format. Whatever the Bind's result formats: a column announced as binary is
